@@ -198,9 +198,9 @@ def probe_prefixes(prog, entry, opts, depth, intr_factory=None):
     eng.run_init()
     st = eng.start(prog.main + "." + entry)
     fin = eng.explore([st])
-    out = [tuple(p) for p in eng.probe_out]
+    out = [(tuple(p), False) for p in eng.probe_out]
     for f in fin:
-        out.append(tuple(f.choices))
+        out.append((tuple(f.choices), True))      # complete path with fewer choices: run it exactly
     seen = []
     for p in out:
         if p not in seen:
